@@ -18,7 +18,8 @@ TECHNIQUE = 'runtime contract on FCSData.hist_bins with an independent logicle r
 RULE = ('fresh loads of samples with resolutions 2^8..2^18 and non-powers of two, raw / RFI / MEF ranges x channel forms '
         '{name, position, list, all} x n in {1,2,default,arbitrary,per-channel lists} x scale in {linear,log,logicle,'
         'per-channel lists,unknown} x logicle overrides; non-trivial = default n (centring clause) or log scale on a range '
-        'starting at 0 or logicle with negative events; distinct = digest(sample, call)')
+        'starting at 0 or logicle with negative events; distinct = digest(sample, call)'
+        ' Also: the same channel requested more than once with its own bin count/scale, samples without events, NaN/inf events in float samples, tuple/ndarray argument forms.')
 ASSUMPTIONS = ['logicle edges compared with the reference transform at rtol 1e-9 (2e-5 for float32 samples)']
 MIN_CHECKS = {'quick': 6000, 'thorough': 150000}
 REQUIRED_COUNTERS = ['chk:hist_bins', 'chk_hist_centre_linear', 'chk_hist_centre_log', 'chk:list-vs-single', 'chk:refusal', 'chk:history', 'chk:form']
